@@ -228,7 +228,7 @@ def template_jobs(specs: list[dict[str, Any]]) -> list[dict[str, Any]]:
 def plugins_jobs(scs: list[dict[str, Any]]) -> list[dict[str, Any]]:
     jobs: list[dict[str, Any]] = [{"job": "plugins", "scenario": None, "synth": None},
                                   {"job": "plugins", "scenario": None, "synth": None, "tail": ["scan", "uds", "services"]}]
-    rich = [s for s in scs if not s["design"]["refused"] and len(s["design"]["tree"]) >= 4][:2]
+    rich = [s for s in scs if not s["design"]["refused"] and len(s["design"]["tree"]) >= 3][:2]
     for n, sc in enumerate(rich):
         c = concrete(sc, NAMES1)
         c["pls"] = [dict(pl, tr=[["xt", f"T{i}a"], ["xt-l", f"T{i}b"]], ecus=[["xoem" + str(i), f"E{i}"]])
@@ -244,7 +244,7 @@ def rerun_jobs(specs: list[dict[str, Any]], scs: list[dict[str, Any]], tier: str
             continue
         jobs.append({"job": "rerun", "scenario": None, "synth": None,
                      "items": [{"path": s["path"], "valid": s["valid"], "cls": s["cls"], "ret": (0, 3, 70)[n % 3]}]})
-    rich = [s for s in scs if not s["design"]["refused"] and len(s["design"]["tree"]) >= 4][:1]
+    rich = [s for s in scs if not s["design"]["refused"] and len(s["design"]["tree"]) >= 3][:1]
     for sc in rich:
         c = concrete(sc, NAMES1)
         items = []
